@@ -115,10 +115,11 @@ fn soup_case(rng: &mut Rng) -> Option<(Case, &'static str)> {
 pub fn run_c05(a: &Args, rep: &mut Report) {
     let mut rng = Rng::derive(a.seed, a.shard, 5);
     // a few very long accepted programs (far jumps and far local calls)
-    if !cfg!(miri) && a.shard < 6 {
+    if !cfg!(miri) && a.shard < 7 {
         for n in [40_000usize, 70_000] {
             let nn = n + rng.below(500) as usize;
-            let c = genp::gen_long(&mut rng, nn, a.shard);
+            // (shard 6: the program in which jumps of exactly +32767 and -32768 are taken)
+            let c = if a.shard == 6 { genp::gen_extreme_jumps() } else { genp::gen_long(&mut rng, nn, a.shard) };
             if accepted(c.kind, &c.prog) {
                 let bufs = Bufs::new(&c);
                 let ir = run_interp(&c, &bufs, 400_000, 0);
